@@ -56,6 +56,9 @@ func daemonMain(self string) {
 	if os.Getenv("C20_CRASH") != "" {
 		os.Exit(3) // a daemon that dies before it ever calls Done()
 	}
+	if os.Getenv("C20_HANGUP") != "" {
+		os.WriteFile(filepath.Join(os.Getenv("C20_DIR"), fmt.Sprintf("onitsway.%d", os.Getpid())), nil, 0o644)
+	}
 	if ms, _ := strconv.Atoi(os.Getenv("C20_DELAY_MS")); ms > 0 {
 		time.Sleep(time.Duration(ms) * time.Millisecond)
 	}
@@ -177,6 +180,9 @@ func TestMain(m *testing.M) {
 			// processes it starts inherit that
 			signal.Ignore(os.Interrupt)
 		}
+		if os.Getenv("C20_HANGUP") != "" {
+			signal.Ignore(syscall.SIGHUP) // what nohup does before it starts the program
+		}
 		name := daemonName
 		if n := os.Getenv("C20_NAME"); n != "" {
 			name = n
@@ -210,6 +216,10 @@ type kase struct {
 	nested           bool // the launched daemon is a supervisor: it launches a worker daemon itself before Done()
 	shortLived       bool // the handler returns right after Done(): Launch still reports the pid it ran under
 	ignoresSigint    bool // the caller child runs with SIGINT ignored (nohup, background job)
+	// hangup: the caller child runs under nohup - SIGHUP ignored, a process group of its own - and the terminal goes away
+	// (SIGHUP to the whole group) while the daemon is still on its way to Done(). Caller, launcher and daemon all inherit
+	// the ignored signal: nothing happens, and Launch returns when Done() has been called - not when the hang-up comes
+	hangup bool
 	rendezvous       bool // concurrent launches only: every daemon waits (up to 3 s) for its peers to have started before it calls Done()
 	oddNames         bool // the handlers asked for are registered under names with blanks at the edges, other letter case, a tab or newline
 	stopAfterDone    bool // the daemon stops itself (SIGSTOP) right after Done(); it is continued once Launch has returned
@@ -259,6 +269,9 @@ func (k kase) String() string {
 	}
 	if k.ignoresSigint {
 		s += " callerIgnoresSIGINT"
+	}
+	if k.hangup {
+		s += " callerUnderNohupAndTheGroupGetsSIGHUPBeforeDone"
 	}
 	if k.childOnly {
 		s += " handlerRegisteredInTheReexecutedProcessOnly"
@@ -430,6 +443,10 @@ func runCase(k kase) string {
 				if k.ignoresSigint {
 					cmd.Env = append(cmd.Env, "C20_IGNORE_SIGINT=1")
 				}
+				if k.hangup {
+					cmd.Env = append(cmd.Env, "C20_HANGUP=1")
+					cmd.SysProcAttr = &syscall.SysProcAttr{Setpgid: true}
+				}
 				if k.afterFailed {
 					cmd.Env = append(cmd.Env, "C20_FAIL_FIRST=1")
 				}
@@ -441,6 +458,19 @@ func runCase(k kase) string {
 					return
 				}
 				results[i].callerPid = cmd.Process.Pid
+				if k.hangup {
+					// once the daemon exists (the launcher that started it listens for signals by then) and is on its way to
+					// Done(), the caller's process group is hung up on
+					go func(pgid int) {
+						for n := 0; n < 3000; n++ {
+							if ms, _ := filepath.Glob(filepath.Join(dir, "onitsway.*")); len(ms) > 0 {
+								syscall.Kill(-pgid, syscall.SIGHUP)
+								return
+							}
+							time.Sleep(2 * time.Millisecond)
+						}
+					}(cmd.Process.Pid)
+				}
 				err := cmd.Wait()
 				results[i].returned = time.Now()
 				line := strings.TrimSpace(out.String())
@@ -695,6 +725,22 @@ func TestGrid(t *testing.T) {
 			}
 		}
 	}
+	// a hang-up while the daemon is on its way (round twenty-two): the caller under nohup, in a group of its own
+	if si == 0 {
+		for _, d := range []int{400, 900} {
+			k := kase{delayMs: d, concurrent: 1, childCaller: true, hangup: true, ignoresSigint: d == 900}
+			if msg := runCase(k); msg != "" {
+				if strings.HasPrefix(msg, "harness:") {
+					rt.Inconclusivef(t, "%s: %s", k, msg)
+				}
+				t.Errorf("%s: %s", k, msg)
+				return
+			}
+			n++
+			ev.Label("caller_under_nohup_and_SIGHUP_to_its_group_before_Done")
+			ev.Case(true, ev.Hash(k.String()), k.String)
+		}
+	}
 	// "however slowly": more than a second on either side (whatever patience a process has with another, it is not
 	// part of the statement)
 	slowPairs := [][2]int{{0, 1300}, {1300, 0}}
@@ -758,6 +804,12 @@ func TestGenerated(t *testing.T) {
 		k.shortLived = !k.nested && rapid.IntRange(0, 3).Draw(t, "handlerReturnsAfterDone") == 0
 		k.ignoresSigint = k.childCaller && rapid.IntRange(0, 2).Draw(t, "callerIgnoresSIGINT") == 0
 		k.doneFrom = rapid.SampledFrom([]int{0, 0, 1, 2}).Draw(t, "doneCalledFrom")
+		if k.childCaller && k.concurrent == 1 && !k.nested && !k.afterFailed && rapid.IntRange(0, 3).Draw(t, "hangup") == 0 {
+			k.hangup = true
+			if k.delayMs < 400 {
+				k.delayMs = 400
+			}
+		}
 		k.rendezvous = k.concurrent > 1 && !k.nested && rapid.IntRange(0, 3).Draw(t, "daemonsWaitForEachOther") == 0
 		k.detach = rapid.SampledFrom([]int{0, 0, 0, 1, 2}).Draw(t, "handlerDetachesBeforeDone")
 		k.stopCont = !k.nested && rapid.IntRange(0, 5).Draw(t, "daemonStoppedAndContinued") == 0
@@ -822,6 +874,9 @@ func TestGenerated(t *testing.T) {
 		}
 		if k.ignoresSigint {
 			ev.Label("caller_runs_with_SIGINT_ignored")
+		}
+		if k.hangup {
+			ev.Label("caller_under_nohup_and_SIGHUP_to_its_group_before_Done")
 		}
 		ev.Case(k.nontrivial(), ev.Hash(k.String()), k.String)
 	})
